@@ -76,6 +76,14 @@ func scenarios() []scenario {
 			{c(s5Source, 1)},
 			{c(s5Source, 2)},
 		}},
+		{Name: "S7-long-pipelines-first-use", Threads: [][]call{
+			{c("T | project a, b | project b, a | summarize n = count() by a | project n | extend m = n + 1 | project m | count", -1)},
+			{c("T | where a | project a | project b = a | project c = b | project d = c | project e = d | as Q | join (R | project k | project j = k | project i = j) on i", -1)},
+		}},
+		{Name: "S8-lets-with-empty-parameter-map", Threads: [][]call{
+			{c("let n = 10; T | take n", 2), c("T | where n > 3 | project n", 2)},
+			{c("let n = 7; let m = n; T | where a == m", 2)},
+		}},
 		{Name: "S6-two-threads-two-calls", Threads: [][]call{
 			{c("T | where isnotnull(a)", -1), c("T | where isnotnull(a)", -1)},
 			{c("T | extend x = tolower(s)", -1), {"parse", "T | count", -1}},
@@ -358,7 +366,7 @@ func main() {
 		}
 		return true, ""
 	}
-	r.Rule = "stateless model checking of the real pql code under a controlled cooperative scheduler: 6 scenarios of 2-3 threads x 1-2 calls (cold start of the lazily built function table, shared options value with let statements, Parse/Scan/SplitStatements, mixed) are explored exhaustively over all interleavings of scheduling points " +
+	r.Rule = "stateless model checking of the real pql code under a controlled cooperative scheduler: 8 scenarios of 2-3 threads x 1-2 calls (cold start of the lazily built function table, shared options value with let statements, Parse/Scan/SplitStatements, mixed) are explored exhaustively over all interleavings of scheduling points " +
 		"(every access to a package-level variable that is ever written, every access to a shared map that is ever written, every sync/atomic operation) up to a preemption bound, plus all sequential call histories up to depth 3; oracle: each call returns exactly what it returns when made first in a fresh state, " +
 		"no co-enabled conflicting accesses (data race), no deadlock, parameter maps unchanged. states = nodes of the schedule tree, transitions = scheduling decisions executed, traces validated = complete executions of the real code"
 	r.Assume = []string{"sequentially consistent interleavings at instrumented points; reads of objects that no execution ever writes commute and are not scheduling points (iterated to a fixpoint)",
@@ -504,6 +512,9 @@ func histories(w *run.Worker, r *run.Runner, tier string) {
 		{"T | project n, p, q", -1},
 		{"T | take n", 1},
 		{"let lim = n; T | take lim", 2},
+		// a let with an empty (non-nil) parameter map: the binding must not reach the caller's map
+		{"let n = 10; T | take n", 2},
+		{"T | where n > 3 | project n", 2},
 	}
 	// nil, zero value and empty map are equivalent on every kind of source
 	for _, src := range []string{"let n = 10; T | take n", "let n = 1; let m = n + 1; T | where a == m | take n", "T | where p == 1", "let p = 2; T | where not(p, 1)", "T | join kind=x (R) on k"} {
